@@ -38,6 +38,7 @@ type VerifCfg struct {
 	DryRun      bool
 	Scratch     string // directory with upload source files
 	AllPoints   bool
+	NewestFirst    bool // default scheduler: newest enabled thread first (else oldest first)
 	ContextBounded bool // CHESS-style: only preemptions cost; switches at blocking points are free (much larger space)
 	ExpiryForms bool // C15: let the env pick expiry forms
 	NoEnv       string // comma list of env classes pinned to their default (to focus budgets)
@@ -88,6 +89,10 @@ type verifEnv struct {
 	pinned  map[string]bool
 	ncall   int
 	open    map[string]int // adapter invocations currently open per oid
+	stickyBatch   int
+	stickyAdapter int
+	gen     int
+	expiry  map[string]time.Time // action href -> instant at which the server said it expires (zero: never)
 	lastAct map[string]string
 }
 
@@ -128,7 +133,15 @@ func (c *verifBatchClient) Batch(remote string, bReq *batchRequest) (*BatchRespo
 	}
 	marker := fmt.Sprintf("batch-fail-#%d", call)
 	base := errors.New(marker)
-	switch e.env("batchcall", 5) {
+	bc := e.stickyBatch
+	if bc == 0 {
+		bc = e.env("batchcall", 9)
+		if bc >= 5 { // 5..8: the same failure from now on, for every later batch call (persistent outage)
+			bc -= 4
+			e.stickyBatch = bc
+		}
+	}
+	switch bc {
 	case 1:
 		logAll("retry-later")
 		e.obs.BatchErr[marker] = oids
@@ -154,7 +167,17 @@ func (c *verifBatchClient) Batch(remote string, bReq *batchRequest) (*BatchRespo
 		rel = "upload"
 	}
 	mk := func(o *Transfer, form int) *Transfer {
-		a := &Action{Href: "http://127.0.0.1:1/storage/" + o.Oid, createdAt: requestedAt}
+		e.gen++
+		a := &Action{Href: fmt.Sprintf("http://127.0.0.1:1/storage/%s?gen=%d", o.Oid, e.gen), createdAt: requestedAt}
+		defer func() {
+			var exp time.Time
+			if a.ExpiresIn != 0 {
+				exp = requestedAt.Add(time.Duration(a.ExpiresIn) * time.Second)
+			} else {
+				exp = a.ExpiresAt
+			}
+			e.expiry[a.Href] = exp
+		}()
 		switch form {
 		case 1: // already expired (relative)
 			a.ExpiresIn = -1
@@ -230,11 +253,10 @@ func (t *verifImpl) DoTransfer(ctx interface{}, tr *Transfer, cb ProgressCallbac
 		rel = "upload"
 	}
 	if a := tr.Actions[rel]; a != nil {
-		var exp time.Time
-		if a.ExpiresIn != 0 {
-			exp = a.createdAt.Add(time.Duration(a.ExpiresIn) * time.Second)
-		} else {
-			exp = a.ExpiresAt
+		// what the SERVER advertised for this href, not what the (copied) action struct still says
+		exp, known := e.expiry[a.Href]
+		if !known {
+			e.obs.Violations = append(e.obs.Violations, "C15:action-not-offered|the adapter was handed an action href the server never offered: "+a.Href)
 		}
 		if !exp.IsZero() && !exp.After(vsched.Now()) {
 			e.obs.Violations = append(e.obs.Violations, fmt.Sprintf("C15:expired-used|action of %s expired at +%v but was handed to the adapter at +%v", tr.Oid[:4], exp.Sub(vsched.Epoch), start))
@@ -252,8 +274,14 @@ func (t *verifImpl) DoTransfer(ctx interface{}, tr *Transfer, cb ProgressCallbac
 	c := 0
 	if e.cfg.ForceFail {
 		c = 1
+	} else if e.stickyAdapter != 0 {
+		c = e.stickyAdapter
 	} else {
-		c = e.env("adapter", 5)
+		c = e.env("adapter", 8)
+		if c >= 5 { // 5..7: retriable / retry-later / fatal from now on for every later attempt
+			c -= 4
+			e.stickyAdapter = c
+		}
 	}
 	switch c {
 	case 1:
@@ -306,7 +334,7 @@ func VerifPrepareScratch(dir string, create bool) {
 // VerifRunQueue performs one controlled execution and returns what was observed.
 func VerifRunQueue(cfg VerifCfg, ch VerifChooser) *VerifObs {
 	obs := &VerifObs{Succeeded: map[string]int{}, NoAction: map[string]bool{}, BatchErr: map[string][]string{}}
-	e := &verifEnv{ch: ch, cfg: cfg, obs: obs, pinned: map[string]bool{}, open: map[string]int{}, lastAct: map[string]string{}}
+	e := &verifEnv{ch: ch, cfg: cfg, obs: obs, pinned: map[string]bool{}, open: map[string]int{}, lastAct: map[string]string{}, expiry: map[string]time.Time{}}
 	for _, p := range strings.Split(cfg.NoEnv, ",") {
 		if p != "" {
 			e.pinned[p] = true
@@ -322,7 +350,7 @@ func VerifRunQueue(cfg VerifCfg, ch VerifChooser) *VerifObs {
 	var q *TransferQueue
 	added := map[string]int{}
 	var order []string
-	out := vsched.Run(ch.Sched, vsched.Options{AllPoints: cfg.AllPoints, DelayBounded: !cfg.ContextBounded}, func() {
+	out := vsched.Run(ch.Sched, vsched.Options{AllPoints: cfg.AllPoints, DelayBounded: !cfg.ContextBounded, NewestFirst: cfg.NewestFirst}, func() {
 		cli := verifClient()
 		m := &concreteManifest{
 			maxRetries:           cfg.MaxRetries,
@@ -658,7 +686,7 @@ type VerifDelayObs struct {
 
 func VerifRunDelay(cfg VerifCfg, ch VerifChooser) *VerifDelayObs {
 	obs := &VerifObs{Succeeded: map[string]int{}, NoAction: map[string]bool{}, BatchErr: map[string][]string{}}
-	e := &verifEnv{ch: ch, cfg: cfg, obs: obs, pinned: map[string]bool{}, open: map[string]int{}, lastAct: map[string]string{}}
+	e := &verifEnv{ch: ch, cfg: cfg, obs: obs, pinned: map[string]bool{}, open: map[string]int{}, lastAct: map[string]string{}, expiry: map[string]time.Time{}}
 	for _, p := range strings.Split(cfg.NoEnv, ",") {
 		if p != "" {
 			e.pinned[p] = true
@@ -668,7 +696,7 @@ func VerifRunDelay(cfg VerifCfg, ch VerifChooser) *VerifDelayObs {
 	d := &VerifDelayObs{Succeeded: obs.Succeeded}
 	var q *TransferQueue
 	oidOf := map[string]string{}
-	out := vsched.Run(ch.Sched, vsched.Options{AllPoints: cfg.AllPoints, DelayBounded: !cfg.ContextBounded}, func() {
+	out := vsched.Run(ch.Sched, vsched.Options{AllPoints: cfg.AllPoints, DelayBounded: !cfg.ContextBounded, NewestFirst: cfg.NewestFirst}, func() {
 		cli := verifClient()
 		m := &concreteManifest{
 			maxRetries:           cfg.MaxRetries,
@@ -686,7 +714,7 @@ func VerifRunDelay(cfg VerifCfg, ch VerifChooser) *VerifDelayObs {
 		closeOnce := new(sync.Once)
 		available := make(chan *Transfer)
 		q = NewTransferQueue(Download, m, "origin", WithBatchSize(cfg.BatchSize))
-		go infiniteTransferBuffer(q, available)
+		verifStartDelayBuffer(q, available) // the statement(s) of filterCommand that start the buffer goroutine, copied at check time
 		ptrs := map[string]bool{}
 		for i, name := range cfg.Adds {
 			// distinct paths; a lower-case letter re-uses the oid of the upper-case one (two files, same content)
